@@ -197,6 +197,11 @@ func (c12) Gen(r *Rand, idx int, tier string) interface{} {
 			p.Unknown = append(p.Unknown, at)
 		}
 	}
+	if r.Pct(12) {
+		// a slow server: it stops reading the connection now and then, writes of the sending tasks block once its
+		// socket buffer is full (while the reader goes on delivering) and go on later; nothing else may change
+		p.Knobs.GenSlow(r, 2500, 200*time.Millisecond)
+	}
 	return p
 }
 func (c12) Decode(raw json.RawMessage) (interface{}, error) {
@@ -207,6 +212,11 @@ func (c12) Decode(raw json.RawMessage) (interface{}, error) {
 func (c12) Shrink(plan interface{}) []interface{} {
 	p := plan.(*c12Plan)
 	var out []interface{}
+	if len(p.Knobs.Slow) > 0 {
+		q := *p
+		q.Knobs.Slow = nil
+		out = append(out, &q)
+	}
 	if len(p.Chaos) > 0 {
 		if p.ChaosEnd > 0 {
 			q := *p
